@@ -432,6 +432,310 @@ func leanStrList(xs []string) string {
 	return "[" + strings.Join(qs, ", ") + "]"
 }
 
+// pkgCall resolves a call `alias.F(...)` to (import path, F); ok=false for anything else.
+func pkgCall(info *types.Info, ce *ast.CallExpr) (string, string, bool) {
+	sel, ok := ce.Fun.(*ast.SelectorExpr)
+	if !ok {
+		return "", "", false
+	}
+	id, ok := sel.X.(*ast.Ident)
+	if !ok {
+		return "", "", false
+	}
+	pn, ok := info.Uses[id].(*types.PkgName)
+	if !ok {
+		return "", "", false
+	}
+	return pn.Imported().Path(), sel.Sel.Name, true
+}
+
+func typePath(info *types.Info, e ast.Expr) string {
+	tv, ok := info.Types[e]
+	if !ok || tv.Type == nil {
+		return exprString(e)
+	}
+	return types.TypeString(tv.Type, func(p *types.Package) string { return p.Path() })
+}
+
+// typePkgName splits a (pointer to a) named type into its package path and name.
+func typePkgName(info *types.Info, e ast.Expr) (string, string) {
+	tv, ok := info.Types[e]
+	if !ok || tv.Type == nil {
+		return "", exprString(e)
+	}
+	t := tv.Type
+	prefix := ""
+	if p, ok := t.(*types.Pointer); ok {
+		t, prefix = p.Elem(), "*"
+	}
+	t = types.Unalias(t)
+	if n, ok := t.(*types.Named); ok && n.Obj().Pkg() != nil {
+		return n.Obj().Pkg().Path(), prefix + n.Obj().Name()
+	}
+	return "", prefix + t.String()
+}
+
+func isRuntimePkg(path string) bool {
+	return strings.Contains(path, "protobuf")
+}
+
+func writeShimFacts(p *pkgInfo, outPath string) {
+	var b strings.Builder
+	b.WriteString("/- REGENERATED on every run by harness/cmd/extract from /repo's Go source. Do not edit. -/\nnamespace Csproto.Generated\n\n")
+	// switch arms over MessageType constants
+	var calls, asserts []string
+	for _, f := range p.files {
+		for _, dcl := range f.Decls {
+			fd, ok := dcl.(*ast.FuncDecl)
+			if !ok || fd.Body == nil {
+				continue
+			}
+			fname := fd.Name.Name
+			if fd.Recv != nil && len(fd.Recv.List) > 0 {
+				fname = exprString(fd.Recv.List[0].Type) + "." + fname
+			}
+			ast.Inspect(fd.Body, func(n ast.Node) bool {
+				sw, ok := n.(*ast.SwitchStmt)
+				if !ok {
+					return true
+				}
+				for _, c := range sw.Body.List {
+					cc := c.(*ast.CaseClause)
+					caseName := "default"
+					if len(cc.List) > 0 {
+						id, ok := cc.List[0].(*ast.Ident)
+						if !ok || !strings.HasPrefix(id.Name, "MessageType") {
+							return true // not a switch over message types
+						}
+						caseName = id.Name
+					}
+					for _, st := range cc.Body {
+						ast.Inspect(st, func(m ast.Node) bool {
+							switch x := m.(type) {
+							case *ast.CallExpr:
+								if path, name, ok := pkgCall(p.info, x); ok && isRuntimePkg(path) {
+									calls = append(calls, fmt.Sprintf("(%q, %q, %q, %q)", fname, caseName, path, name))
+								}
+							case *ast.TypeAssertExpr:
+								if x.Type != nil {
+									pkg, name := typePkgName(p.info, x.Type)
+									asserts = append(asserts, fmt.Sprintf("(%q, %q, %q, %q)", fname, caseName, pkg, name))
+								}
+							}
+							return true
+						})
+					}
+				}
+				return true
+			})
+		}
+	}
+	fmt.Fprintf(&b, "/-- (function, MessageType case, import path, callee) for every runtime call inside a `switch MsgType` arm -/\ndef shimCalls : List (String × String × String × String) := [%s]\n\n", strings.Join(calls, ",\n  "))
+	fmt.Fprintf(&b, "/-- (function, MessageType case, asserted type) for every type assertion inside an arm -/\ndef shimAsserts : List (String × String × String × String) := [%s]\n\n", strings.Join(asserts, ",\n  "))
+	fmt.Printf("fact F6 %d runtime calls, %d assertions in MessageType switch arms\n", len(calls), len(asserts))
+
+	// deduceMsgType: control skeleton
+	var skel []string
+	if fd := p.funcDecl("deduceMsgType"); fd != nil {
+		var walk func(stmts []ast.Stmt, depth int)
+		walk = func(stmts []ast.Stmt, depth int) {
+			for _, st := range stmts {
+				switch x := st.(type) {
+				case *ast.IfStmt:
+					cond := ""
+					if as, ok := x.Init.(*ast.AssignStmt); ok && len(as.Rhs) == 1 {
+						if ta, ok := as.Rhs[0].(*ast.TypeAssertExpr); ok {
+							cond = "assert " + typePath(p.info, ta.Type)
+						}
+					}
+					if cond == "" {
+						cond = condString(p.info, x.Cond)
+					}
+					skel = append(skel, fmt.Sprintf("%d:if %s", depth, cond))
+					walk(x.Body.List, depth+1)
+				case *ast.ReturnStmt:
+					if len(x.Results) == 1 {
+						skel = append(skel, fmt.Sprintf("%d:return %s", depth, exprString(x.Results[0])))
+					}
+				}
+			}
+		}
+		walk(fd.Body.List, 0)
+	} else {
+		fmt.Println("missing function deduceMsgType")
+		os.Exit(1)
+	}
+	fmt.Fprintf(&b, "def deduceSkeleton : List String := %s\n\n", leanStrList(skel))
+	fmt.Printf("fact F6 deduceMsgType skeleton %v\n", skel)
+	// MsgType: nil guard + cache protocol (Load before deduce, Store after)
+	if fd := p.funcDecl("MsgType"); fd != nil {
+		var seq []string
+		ast.Inspect(fd.Body, func(n ast.Node) bool {
+			switch x := n.(type) {
+			case *ast.CallExpr:
+				if nme := callName(x); nme == ".Load" || nme == ".Store" || nme == "deduceMsgType" {
+					seq = append(seq, nme)
+				}
+			case *ast.BinaryExpr:
+				if id, ok := x.Y.(*ast.Ident); ok && id.Name == "nil" && x.Op == token.EQL {
+					seq = append(seq, "nilcheck")
+				}
+			}
+			return true
+		})
+		fmt.Fprintf(&b, "def msgTypeProtocol : List String := %s\n\n", leanStrList(seq))
+		fmt.Printf("fact F6 MsgType protocol %v\n", seq)
+	}
+
+	// detection order inside the JSON adapters and Reset / MarshalText (type assertions in source order)
+	for _, fn := range []struct{ recv, name, lean string }{{"jsonMarshaler", "MarshalJSON", "jsonMarshalProbes"}, {"jsonUnmarshaler", "UnmarshalJSON", "jsonUnmarshalProbes"}, {"", "Reset", "resetProbes"}, {"", "MarshalText", "marshalTextProbes"}} {
+		var fd *ast.FuncDecl
+		if fn.recv != "" {
+			fd = p.methodDecl(fn.recv, fn.name)
+		} else {
+			fd = p.funcDecl(fn.name)
+		}
+		if fd == nil {
+			fmt.Printf("missing function %s\n", fn.name)
+			os.Exit(1)
+		}
+		var probes []string
+		for _, st := range fd.Body.List {
+			ifs, ok := st.(*ast.IfStmt)
+			if !ok {
+				continue
+			}
+			as, ok := ifs.Init.(*ast.AssignStmt)
+			if !ok || len(as.Rhs) != 1 {
+				continue
+			}
+			ta, ok := as.Rhs[0].(*ast.TypeAssertExpr)
+			if !ok {
+				continue
+			}
+			var cs []string
+			ast.Inspect(ifs.Body, func(m ast.Node) bool {
+				if ce, ok := m.(*ast.CallExpr); ok {
+					if path, name, ok := pkgCall(p.info, ce); ok && isRuntimePkg(path) {
+						cs = append(cs, path+"."+name)
+					} else if n := callName(ce); strings.HasPrefix(n, ".") && (strings.Contains(n, "arshal") || n == ".Reset") {
+						cs = append(cs, n)
+					}
+				}
+				return true
+			})
+			probes = append(probes, typePath(p.info, ta.Type)+" => "+strings.Join(cs, ","))
+		}
+		fmt.Fprintf(&b, "def %s : List String := %s\n\n", fn.lean, leanStrList(probes))
+		fmt.Printf("fact F5 %s %v\n", fn.lean, probes)
+	}
+
+	// F7: option wiring — composite literals of the runtimes' option structs in json.go
+	var wiring []string
+	for _, f := range p.files {
+		ast.Inspect(f, func(n ast.Node) bool {
+			cl, ok := n.(*ast.CompositeLit)
+			if !ok || cl.Type == nil {
+				return true
+			}
+			tp := typePath(p.info, cl.Type)
+			if !strings.Contains(tp, "json") || !strings.Contains(tp, "protobuf") {
+				return true
+			}
+			for _, el := range cl.Elts {
+				kv, ok := el.(*ast.KeyValueExpr)
+				if !ok {
+					continue
+				}
+				k, _ := kv.Key.(*ast.Ident)
+				v := exprString(kv.Value)
+				if i := strings.LastIndex(v, "."); i >= 0 {
+					v = v[i+1:]
+				}
+				if k != nil {
+					wiring = append(wiring, fmt.Sprintf("(%q, %q, %q)", tp, k.Name, v))
+				}
+			}
+			return true
+		})
+	}
+	fmt.Fprintf(&b, "/-- (runtime option struct, its field, csproto option field it is wired to) -/\ndef jsonWiring : List (String × String × String) := [%s]\n\n", strings.Join(wiring, ",\n  "))
+	fmt.Printf("fact F7 %d json option wirings\n", len(wiring))
+	// option setters: JSONxxx(v) assigns opts.<field>
+	var setters []string
+	for _, f := range p.files {
+		for _, dcl := range f.Decls {
+			fd, ok := dcl.(*ast.FuncDecl)
+			if !ok || fd.Recv != nil || !strings.HasPrefix(fd.Name.Name, "JSON") || fd.Body == nil {
+				continue
+			}
+			ast.Inspect(fd.Body, func(n ast.Node) bool {
+				as, ok := n.(*ast.AssignStmt)
+				if !ok || len(as.Lhs) != 1 {
+					return true
+				}
+				if sel, ok := as.Lhs[0].(*ast.SelectorExpr); ok {
+					if x, ok := sel.X.(*ast.Ident); ok && x.Name == "opts" {
+						setters = append(setters, fmt.Sprintf("(%q, %q)", fd.Name.Name, sel.Sel.Name))
+					}
+				}
+				return true
+			})
+		}
+	}
+	fmt.Fprintf(&b, "def jsonSetters : List (String × String) := [%s]\n\n", strings.Join(setters, ", "))
+
+	// F8: the gRPC codec
+	var codec []string
+	for _, m := range []string{"Marshal", "Unmarshal", "Name"} {
+		fd := p.methodDecl("GrpcCodec", m)
+		if fd == nil {
+			fmt.Printf("missing GrpcCodec.%s\n", m)
+			os.Exit(1)
+		}
+		ast.Inspect(fd.Body, func(n ast.Node) bool {
+			switch x := n.(type) {
+			case *ast.CallExpr:
+				codec = append(codec, m+" -> "+callName(x))
+			case *ast.BasicLit:
+				codec = append(codec, m+" = "+x.Value)
+			}
+			return true
+		})
+	}
+	fmt.Fprintf(&b, "def grpcCodec : List String := %s\n", leanStrList(codec))
+	fmt.Printf("fact F8 grpc codec %v\n", codec)
+	b.WriteString("\nend Csproto.Generated\n")
+	writeIfChanged(outPath, []byte(b.String()))
+}
+
+// condString renders a condition with package aliases resolved and local names kept.
+func condString(info *types.Info, e ast.Expr) string {
+	switch x := e.(type) {
+	case *ast.BinaryExpr:
+		return condString(info, x.X) + " " + x.Op.String() + " " + condString(info, x.Y)
+	case *ast.CallExpr:
+		if path, name, ok := pkgCall(info, x); ok {
+			return path + "." + name + "(…)"
+		}
+		return callName(x) + "(…)"
+	case *ast.SelectorExpr:
+		if id, ok := x.X.(*ast.Ident); ok {
+			if pn, ok := info.Uses[id].(*types.PkgName); ok {
+				return pn.Imported().Path() + "." + x.Sel.Name
+			}
+		}
+		return "." + x.Sel.Name
+	case *ast.BasicLit:
+		return x.Value
+	case *ast.Ident:
+		return x.Name
+	case *ast.ParenExpr:
+		return "(" + condString(info, x.X) + ")"
+	}
+	return exprString(e)
+}
+
 func writeIfChanged(path string, data []byte) {
 	old, err := os.ReadFile(path)
 	if err == nil && bytes.Equal(old, data) {
@@ -563,6 +867,10 @@ func main() {
 	}
 	d.WriteString("\nend Csproto.Generated\n")
 	writeIfChanged(filepath.Join(*out, "Dispatch.lean"), []byte(d.String()))
+
+	// F6/F7/F8: runtime shim wiring (clone.go, equal.go, marshal_text.go, extensions.go, json.go, grpc_codec.go, message_types.go, reset.go)
+	curInfo = root.info
+	writeShimFacts(root, filepath.Join(*out, "Shim.lean"))
 
 	// F9: lazyproto accessors: helper used, expected wire type, csproto decode function, scratch slice
 	lz, err := load(filepath.Join(*repo, "lazyproto"))
